@@ -9,7 +9,7 @@ import lib
 PIPELINES = {
     "C01": "p_diff", "C02": "p_diff", "C03": "p_diff",
     "C04": "p_rules",
-    "C06": "p_md", "C07": "p_cram", "C08": "p_expect", "C09": "p_gen", "C10": "p_update", "C12": "p_shell", "C13": "p_capture", "C16": "p_config", "C17": "p_yaml", "C19": "p_render", "C11": "p_escape",
+    "C06": "p_md", "C07": "p_cram", "C08": "p_expect", "C09": "p_gen", "C10": "p_update", "C12": "p_shell", "C13": "p_capture", "C16": "p_config", "C17": "p_yaml", "C18": "p_workdirs", "C19": "p_render", "C11": "p_escape",
     "C05": "p_e2e", "C14": "p_e2e", "C15": "p_e2e", "C20": "p_e2e",
 }
 
